@@ -15,13 +15,13 @@ KEEP_PREFIX = 1            # the first `clock` creates the case's time base
 SIZES = {"quick": 3000, "thorough": 60000}
 BATCH = 1000
 SHRINK_BUDGET = 250
-EXTRA_MODULES = ("Sentinel.Lemmas.Pipeline",)
+EXTRA_MODULES = ("Sentinel.Lemmas.Pipeline", "Sentinel.Lemmas.PipelineHist", "Sentinel.Lemmas.PipelineCb", "Sentinel.Lemmas.PipelineCouple")
 RULE = ("per case: `clock T0` (T0 = 1.9e12 + offsets on / around bucket and array-cycle boundaries), 2-4 resources, every resource "
         "gets 2-4 of the rule kinds {flow Direct/Reject (thresholds 0..5, fractional, NaN/Inf/negative slice; statistic intervals giving "
         "default view, derived view, own window; 20% associated rules on a view), isolation (thresholds 1..5, 0 = invalid; 1-2 rules), "
         "hotspot concurrency (ParamIndex 0/1/-1, ParamKey, general threshold 0..3, specific items, invalid slice), circuit breaker (all "
         "three strategies, 1-2 breakers per resource, retry 1..3000 ms, MinRequestAmount 0..5, bucket counts 0/1/2/5/10, ProbeNum 0..3)}, "
-        "loaded in random order, a quarter of the loads in the middle of the traffic; in 55% of the cases 1-3 system rules (qps / concurrency / avgRT / load / cpu, "
+        "loaded in random order, a quarter of the flow / isolation / breaker / system loads in the middle of the traffic (hotspot rules always before it: C06's hypothesis); in 30% of the cases the first resource is mainly guarded by its breakers and 70% of the exits carry an error; in 55% of the cases 1-3 system rules (qps / concurrency / avgRT / load / cpu, "
         "BBR or not) with injected load / cpu readings around the triggers; then 30-120 ops: entries (inbound 60% when system rules "
         "exist; batch from {0,1,1,1,2,3,5}; 0-2 arguments from a pool of 3-5 values, optional attachment) weighted to a focus resource "
         "so that thresholds are reached, entries held open across others, exits in random order with / without error after 0..60 ms "
